@@ -31,6 +31,7 @@ func verifVFSRoot() string
 func verifVFSPut(name string, content []byte)
 func verifVFSDel(name string)
 func verifTask(name string, notification bool)
+func verifSched(explore bool)
 `
 
 func (e *Engine) byteIn(name, set string) *symv {
@@ -219,6 +220,10 @@ var intrinsics = map[string]extFn{
 	},
 	"verifVFSDel": func(e *Engine, _ *frame, _ *ssa.Function, a []value) value {
 		delete(e.vfs, e.needStr(a[0], "verifVFSDel"))
+		return nil
+	},
+	"verifSched": func(e *Engine, _ *frame, _ *ssa.Function, a []value) value {
+		e.schedOff = !e.truth(a[0])
 		return nil
 	},
 	"verifIsSym": func(e *Engine, _ *frame, _ *ssa.Function, a []value) value {
